@@ -670,11 +670,19 @@ Record call_in := {
   ci_ctx : list (Z * Z);                 (* opcode byte -> value of the context getter *)
   ci_keccak : list (list Z * Z);         (* pre-image -> digest, recorded from the real hash primitive *)
   ci_accts : list acct;
+  ci_self_hash : Z;                      (* keccak of the contract's own code (0: no code yet) *)
   ci_blockhash : list (Z * Z);
   ci_ext : list ext_res;
 }.
 
-Definition mk_env (code : list Z) (ro : bool) (c : call_in) : env :=
+Definition self_acct (code : list Z) (c : call_in) : list acct :=
+  if ci_self_hash c =? 0 then [] else
+  [ {| ac_addr := assoc 48 (ci_ctx c); ac_kind := 1; ac_balance := ci_balance c; ac_size := zlen code;
+       ac_hash := ci_self_hash c; ac_code := code |} ].
+Definition mk_env (code : list Z) (ro : bool) (c0 : call_in) : env :=
+  let c := {| ci_calldata := ci_calldata c0; ci_balance := ci_balance c0; ci_ctx := ci_ctx c0;
+              ci_keccak := ci_keccak c0; ci_accts := self_acct code c0 ++ ci_accts c0;
+              ci_self_hash := ci_self_hash c0; ci_blockhash := ci_blockhash c0; ci_ext := ci_ext c0 |} in
   {| e_code := code; e_calldata := ci_calldata c; e_readonly := ro;
      e_keccak := fun bs => assoc_l bs (ci_keccak c);
      e_ctx := fun i => assoc (instr_byte i) (ci_ctx c);
@@ -702,6 +710,19 @@ Definition FUEL_LOG2 : nat := 19.     (* 524288 steps *)
 
 (* a byte string written as (length, big-endian value): two tokens instead of a long list literal *)
 Definition bz (len v : Z) : list Z := Z_to_be (Z.to_nat len) v.
+(* ... or as (length, 32-byte big-endian words, the last one zero-padded on the right): Coq parses
+   short number literals much faster than long ones *)
+Definition bw (len : Z) (words : list Z) : list Z := ztake len (flat_map (Z_to_be 32) words).
+Fixpoint chunks32 (fuel : nat) (bs : list Z) : list Z :=
+  match fuel with
+  | O => []
+  | S f =>
+      match bs with
+      | [] => []
+      | _ => let c := firstn 32 bs in
+             be_to_Z (c ++ repeat 0 (32 - length c)) :: chunks32 f (skipn 32 bs)
+      end
+  end.
 
 (* the harness VM's configuration (harness/src/vvm*.rs, harness/src/bin/evm_prog.rs) *)
 Definition VM_EPOCH : Z := 100000.
@@ -716,12 +737,13 @@ Definition id_eth (id : Z) : Z := 255 * 2 ^ 152 + id.
 (* compact constructor used by the harness.  origin: the sending account (0xff.. form of its id);
    extra: accounts beyond the standard ones (the contract itself) *)
 Definition mkci (calldata : list Z) (balance address origin caller value origin_balance echo reverter : Z)
-  (echo_hash reverter_hash : Z) (keccak : list (list Z * Z)) (extra : list acct) (ext : list ext_res) : call_in :=
+  (echo_hash reverter_hash : Z) (keccak : list (list Z * Z)) (self_hash : Z) (ext : list ext_res) : call_in :=
   {| ci_calldata := calldata; ci_balance := balance;
      ci_ctx := [(48, address); (50, origin); (51, caller); (52, value); (58, 0); (65, 0); (66, 0);
                 (67, VM_EPOCH); (68, VM_RANDAO); (69, 10000000000); (70, 0); (72, 0); (90, 2 ^ 32 - 1)];
      ci_keccak := keccak;
-     ci_accts := extra ++
+     ci_self_hash := self_hash;
+     ci_accts :=
        [ {| ac_addr := origin; ac_kind := 0; ac_balance := origin_balance; ac_size := 0; ac_hash := HASH_EMPTY; ac_code := [] |};
          {| ac_addr := id_eth 1; ac_kind := 2; ac_balance := 0; ac_size := 1; ac_hash := HASH_NATIVE; ac_code := [254] |};
          {| ac_addr := echo; ac_kind := 1; ac_balance := 0; ac_size := 7; ac_hash := echo_hash; ac_code := ECHO_CODE |};
@@ -749,7 +771,7 @@ Fixpoint insert_kv (x : Z * Z) (l : list (Z * Z)) : list (Z * Z) :=
 Definition sorted_kv (m : gmap Z Z) : list (Z * Z) := fold_right insert_kv [] (map_to_list m).
 Definition enc_map (m : gmap Z Z) : list Z :=
   let l := sorted_kv m in zlen l :: flat_map (fun kv : Z * Z => [fst kv; snd kv]) l.
-Definition enc_bytes (bs : list Z) : list Z := [zlen bs; be_to_Z bs].
+Definition enc_bytes (bs : list Z) : list Z := zlen bs :: chunks32 (length bs) bs.
 (* the harness sees messages (calls, creates, the selfdestruct transfer) and events as two separate
    ordered lists, and cannot tell a CALL from a STATICCALL message *)
 Definition enc_ev (e : ext_ev) : list Z :=
